@@ -50,7 +50,38 @@ def xsd_tables():
     return enums, elems
 
 
+def pb_tables():
+    """enum member names and State fields of the shipped protobuf definition (from the *_pb2 descriptors)"""
+    import importlib
+    import pkgutil
+    import commonroad.scenario_definition.protobuf_format.generated_scripts as gs
+    enums = {}
+
+    def walk(m):
+        for e in m.enum_types:
+            enums[e.name] = [v.name for v in e.values]
+        for n in m.nested_types:
+            walk(n)
+    for mi in pkgutil.iter_modules(gs.__path__):
+        mod = importlib.import_module(gs.__name__ + "." + mi.name)
+        for e in mod.DESCRIPTOR.enum_types_by_name.values():
+            enums[e.name] = [v.name for v in e.values]
+        for m in mod.DESCRIPTOR.message_types_by_name.values():
+            walk(m)
+    from commonroad.scenario_definition.protobuf_format.generated_scripts import obstacle_pb2
+    return enums, [f.name for f in obstacle_pb2.State.DESCRIPTOR.fields]
+
+
 _T = None
+_PB = None
+
+
+def PB():
+    global _PB
+    if _PB is None:
+        _PB = pb_tables()
+    return _PB
+
 
 
 def T():
@@ -80,7 +111,8 @@ class Gen:
         if self.edge and r.random() < 0.25:
             x = r.choice([1e-6, -1e-6, 1e-5, 3e-5, 1e5 + 0.123456789, -1e5, 12345.678901234, 5e-7, 0.1 + 0.2, 1e-7,
                           2.0 ** -20, 123456.7, 1e-4 / 3]) * r.choice([1, 1, -1])
-            x = min(max(x, lo), hi) if (x < lo or x > hi) and r.random() < 0.5 else x
+            if x < lo or x > hi:
+                x = r.uniform(lo, hi)
         if nd is None:
             nd = r.choice([1, 3, 6, 9, None])
         return float(x) if nd is None else round(float(x), nd)
@@ -94,10 +126,13 @@ class Gen:
     def enum_in(self, cls, xsd_name, exclude=()):
         allowed = set(self.enums[xsd_name])
         ms = [m for m in cls if m.value in allowed and m not in exclude]
+        if self.fmt == "pb":
+            names = set(PB()[0].get(cls.__name__, [m.name for m in cls]))
+            ms = [m for m in ms if m.name in names]
         return self.rng.choice(ms)
 
     # ---------------------------------------------------------------- shapes
-    def shape(self, kinds=("rect", "circ", "poly", "group"), centred=False):
+    def shape(self, kinds=("rect", "circ", "poly", "group"), centred=False, one_kind=False):
         r = self.rng
         k = r.choice(kinds)
         c = np.array([0.0, 0.0]) if centred else np.array([self.f(-50, 50), self.f(-50, 50)])
@@ -115,7 +150,10 @@ class Gen:
             return Polygon(np.array([[round(c[0] + ri * math.cos(a), 5), round(c[1] + ri * math.sin(a), 5)]
                                      for ri, a in zip(rad, angs)]))
         sub = tuple(x for x in kinds if x != "group") or ("rect",)
-        return ShapeGroup([self.shape(sub, centred) for _ in range(r.randint(1, 3))])
+        if one_kind:
+            sub = (r.choice(sub),)
+        # a one-member group is written exactly like its member, so groups have >= 2 members
+        return ShapeGroup([self.shape(sub, centred) for _ in range(r.randint(2, 3))])
 
     # ---------------------------------------------------------------- states
     def exact_or_itv(self, lo, hi, angle=False, allow_itv=True):
@@ -128,32 +166,39 @@ class Gen:
             return Interval(x, x + w)
         return x
 
-    def state(self, t, uncertain=True):
-        """a trajectory state the format can hold: position, orientation, time + a random subset of the other
+    def state_template(self):
+        """(class, attribute names) of a trajectory's states: position, orientation, time + a subset of the other
         attributes the format knows, through the state classes of the library"""
+        import dataclasses
         r = self.rng
-        pos = np.array([self.f(-100, 100), self.f(-100, 100)])
-        if uncertain and r.random() < 0.2:
-            pos = self.shape(("rect", "circ", "poly", "group"))
-        orient = self.exact_or_itv(-3.1, 3.1, angle=True, allow_itv=uncertain)
         cls = r.choice([KSState, STState, STDState, MBState, ExtendedPMState, CustomState, CustomState, InitialState]
                        + ([PMState] if self.fmt == "pb" else []))
         if cls is CustomState:
             names = [n for n in ["velocity", "acceleration", "yaw_rate", "slip_angle", "steering_angle", "roll_angle",
                                  "velocity_y", "jerk", "curvature", "curvature_rate", "delta_y_f", "delta_y_r",
                                  "position_z", "left_front_wheel_angular_speed", "jounce", "pitch_rate"]
-                     if camel(n) in self.elems["state"]]
-            kw = {n: self.exact_or_itv(-20, 20, allow_itv=uncertain) for n in r.sample(names, r.randint(0, 5))}
-            return CustomState(time_step=t, position=pos, orientation=orient, **kw)
-        import dataclasses
-        kw = {}
+                     if camel(n) in self.elems["state"] and (self.fmt == "xml" or n in PB()[1])]
+            return cls, r.sample(names, r.randint(0, 5))
+        names = []
         for fld in dataclasses.fields(cls):
             if fld.name in ("time_step", "position", "orientation"):
                 continue
             if self.fmt == "xml" and camel(fld.name) not in self.elems["state"]:
                 continue
+            if self.fmt == "pb" and fld.name not in PB()[1]:
+                continue
             if cls in (KSState, STState, ExtendedPMState, PMState) or r.random() < 0.8:
-                kw[fld.name] = self.exact_or_itv(-20, 20, allow_itv=uncertain)
+                names.append(fld.name)
+        return cls, names
+
+    def state(self, t, uncertain=True, template=None):
+        r = self.rng
+        cls, names = template or self.state_template()
+        pos = np.array([self.f(-100, 100), self.f(-100, 100)])
+        if uncertain and r.random() < 0.2:
+            pos = self.shape(("rect", "circ", "poly", "group"), one_kind=True)
+        orient = self.exact_or_itv(-3.1, 3.1, angle=True, allow_itv=uncertain)
+        kw = {n: self.exact_or_itv(-20, 20, allow_itv=uncertain) for n in names}
         if cls is PMState:
             return PMState(time_step=t, position=pos, **kw)
         return cls(time_step=t, position=pos, orientation=orient, **kw)
@@ -194,8 +239,11 @@ class Gen:
     def obstacle(self, oid, role):
         r = self.rng
         if role == "static":
-            return StaticObstacle(oid, self.enum_in(ObstacleType, "obstacleTypeStatic"), self.shape(),
-                                  self.initial_state(uncertain=r.random() < 0.3),
+            unc = r.random() < 0.3
+            # (a shape group with an uncertain state raises ValueError in occupancy_shape_from_state: property C04)
+            return StaticObstacle(oid, self.enum_in(ObstacleType, "obstacleTypeStatic"),
+                                  self.shape(("rect", "circ", "poly")) if unc else self.shape(),
+                                  self.initial_state(uncertain=unc),
                                   **({"signal_series": []} if self.fmt == "pb" and r.random() < 0.5 else {}))
         if role == "environment":
             return EnvironmentObstacle(oid, self.enum_in(ObstacleType, "obstacleTypeEnvironment"), self.shape())
@@ -203,8 +251,9 @@ class Gen:
         if role == "phantom":
             return PhantomObstacle(oid, SetBasedPrediction(1, self.occupancies(1, n)))
         otype = self.enum_in(ObstacleType, "obstacleTypeDynamic")
-        shape = self.shape(centred=True)
-        init = self.initial_state(uncertain=r.random() < 0.3)
+        unc0 = r.random() < 0.3
+        shape = self.shape(("rect", "circ", "poly"), centred=True)
+        init = self.initial_state(uncertain=unc0)
         kw = {}
         if r.random() < 0.5:
             kw["initial_signal_state"] = self.signal(0)
@@ -214,7 +263,8 @@ class Gen:
             pred = SetBasedPrediction(1, self.occupancies(1, n))
         else:
             unc = r.random() < 0.3
-            pred = TrajectoryPrediction(Trajectory(1, [self.state(1 + i, unc) for i in range(n)]), shape)
+            tpl = self.state_template()
+            pred = TrajectoryPrediction(Trajectory(1, [self.state(1 + i, unc, tpl) for i in range(n)]), shape)
         return DynamicObstacle(oid, otype, shape, init, pred, **kw)
 
     # ---------------------------------------------------------------- network
@@ -256,8 +306,9 @@ class Gen:
                     user_one_way={self.enum_in(RoadUser, "vehicleType") for _ in range(r.randint(0, 2))} or None,
                     user_bidirectional={self.enum_in(RoadUser, "vehicleType")} if r.random() < 0.3 else None))
         signs, lights, inters = [], [], []
-        sign_ids = [m for m in list(TrafficSignIDGermany) + list(TrafficSignIDZamunda)
-                    if m.value in set(self.enums["trafficSignID"])]
+        from commonroad.scenario.traffic_sign import TrafficSignIDCountries
+        sign_ids = [m for m in TrafficSignIDCountries[self.country] if m.value in set(self.enums["trafficSignID"])
+                    and (self.fmt == "xml" or m.name in PB()[0].get(type(m).__name__, []))]
         for _ in range(r.randint(0, 3)):
             users = r.sample(lls, r.randint(1, min(2, len(lls))))
             els = []
@@ -323,7 +374,7 @@ class Gen:
         kw = {"time_step": Interval(a, a + r.randint(1, 30))}
         pos_kind = r.choice(["shape", "lanelet", "none"])
         if pos_kind == "shape":
-            kw["position"] = self.shape(("rect", "circ", "poly", "group"))
+            kw["position"] = self.shape(("rect", "circ", "poly", "group"), one_kind=True)
         if r.random() < 0.6:
             x = self.f(-3, 2)
             kw["orientation"] = AngleInterval(x, x + abs(self.f(0.05, 1.0)) + 1e-3)
@@ -332,8 +383,9 @@ class Gen:
             kw["velocity"] = Interval(v, v + abs(self.f(0.5, 5)) + 1e-3)
         return CustomState(**kw), pos_kind
 
-    def problems(self, lanelet_ids):
+    def problems(self, net):
         r = self.rng
+        lanelet_ids = [la.lanelet_id for la in net.lanelets]
         pps = []
         for i in range(r.randint(1, 2)):
             goals, log = [], {}
@@ -341,7 +393,10 @@ class Gen:
                 st, kind = self.goal_state()
                 goals.append(st)
                 if kind == "lanelet":
+                    # the library's convention for lanelet goals: the position holds the lanelet polygons and
+                    # lanelets_of_goal_position names the lanelets (this is what the readers build)
                     log[j] = r.sample(lanelet_ids, r.randint(1, min(2, len(lanelet_ids))))
+                    st.position = ShapeGroup([net.find_lanelet_by_id(i).polygon for i in log[j]])
             init = self.initial_state(full=True)
             pps.append(PlanningProblem(2000 + i, init, GoalRegion(goals, log or None)))
         return PlanningProblemSet(pps)
@@ -364,9 +419,10 @@ class Gen:
 
     def build(self):
         r = self.rng
+        self.country = r.choice(["ZAM", "DEU", "USA", "ESP", "ZAM"])
         net = self.network()
         dt = r.choice([0.1, 0.04, 0.2, 1.0, 0.05]) if not self.edge else r.choice([0.1, 1e-5, 0.00025, 2.0])
-        sid = ScenarioID(r.random() < 0.2, r.choice(["ZAM", "DEU", "USA"]), r.choice(["Test", "Urban", "A9"]),
+        sid = ScenarioID(r.random() < 0.2, self.country, r.choice(["Test", "Urban", "A9"]),
                          r.randint(1, 9), r.randint(1, 9), r.choice(["T", "S", "P", "I"]), r.randint(1, 5))
         sc = Scenario(dt, sid)
         sc.add_objects(net)
@@ -374,7 +430,7 @@ class Gen:
         for role in r.choices(["static", "dynamic", "dynamic", "phantom", "environment"], k=r.randint(0, 5)):
             sc.add_objects(self.obstacle(oid, role))
             oid += 1
-        pps = self.problems([la.lanelet_id for la in net.lanelets])
+        pps = self.problems(net)
         tag_names = {el for el in self.elems["tag"]}
         tags = {t for t in Tag if t.value in tag_names}
         meta = {"author": r.choice(["Jane Doe", "A. Author, B. Other", ""]),
